@@ -35,8 +35,12 @@ pub fn run(case: &Value, params: &Params, out: &mut Vec<Value>) {
     let before = ranks_of(&rm, &lane);
     let script: Vec<usize> = jints(&case["pv"]).into_iter().map(|x| x as usize).collect();
     let fb = fallback(jstr(case, "fb", "drawn"));
+    let frame = params.get("frame").map(|s| s == "1").unwrap_or(false);
     for stride in strides(case, params) {
-        let mut st = Strided::new(&lane, stride, 2, |_| i64::MIN + 7);
+        // pad cells hold distinct values below every lane value, so any write outside the view shows
+        let mut st = Strided::new(&lane, stride, 2, |k| i64::MIN + 7 + k as i64);
+        let pm0: Vec<i64> = st.parent.to_vec();
+        let vin = json!({"ptr": if st.n == 0 { 0 } else { st.addr(0) }, "len": st.n, "stride": stride});
         match ev {
             "partition" => {
                 let p = to_usize(jint(case, "p"));
@@ -74,7 +78,40 @@ pub fn run(case: &Value, params: &Params, out: &mut Vec<Value>) {
                     "out": if r.is_ok() {"ok"} else {"panic"},
                     "keys": keys, "vals": vals, "after": after, "pv": pv}));
             }
+            "bulkpair" => {
+                // C18: the bulk form against the single form, index by index, on clones of the same input
+                let idx: Vec<usize> = jints(&case["idx"]).into_iter().map(to_usize).collect();
+                let idx_arr = Array1::from(idx.clone());
+                verif_hooks::set_script(script.clone(), fb);
+                let r = guarded(|| st.view_mut().get_many_from_sorted_mut(&idx_arr));
+                verif_hooks::take_log();
+                let (keys, vals): (Vec<i64>, Vec<i64>) = match &r {
+                    Ok(m) => m.iter().map(|(&k, v)| (from_usize(k), rank_of(&rm, v))).unzip(),
+                    Err(()) => (vec![], vec![]),
+                };
+                let singles: Vec<Value> = idx.iter().map(|&i| {
+                    let mut st2 = Strided::new(&lane, stride, 2, |k| i64::MIN + 7 + k as i64);
+                    verif_hooks::set_script(vec![], Fallback::Drawn);
+                    let r2 = guarded(|| st2.view_mut().get_from_sorted_mut(i));
+                    verif_hooks::take_log();
+                    json!({"i": from_usize(i), "out": if r2.is_ok() {"ok"} else {"panic"}, "ret": r2.map(|v| rank_of(&rm, &v)).unwrap_or(0)})
+                }).collect();
+                out.push(json!({"ev": "bulkpair", "stride": stride, "a": before,
+                    "idx": idx.iter().map(|&x| from_usize(x)).collect::<Vec<_>>(),
+                    "out": if r.is_ok() {"ok"} else {"panic"}, "keys": keys, "vals": vals, "singles": singles}));
+            }
             _ => panic!("unknown sort event {ev}"),
+        }
+        if frame {
+            // parent buffer before/after in rank space (ranks over everything the buffer ever held)
+            let pm1: Vec<i64> = st.parent.to_vec();
+            let mut all = pm0.clone();
+            all.extend(pm1.iter().cloned());
+            let prm = rank_map(&all);
+            let o = out.last_mut().unwrap().as_object_mut().unwrap();
+            o.insert("pm0".into(), json!(ranks_of(&prm, &pm0)));
+            o.insert("pm1".into(), json!(ranks_of(&prm, &pm1)));
+            o.insert("vin".into(), vin);
         }
     }
 }
@@ -119,14 +156,14 @@ pub fn gen(seed: u64, count: usize, tier: &str, params: &Params) -> Vec<Value> {
                 let i = if oor || n == 0 { n + rng.range(0, 2) + if rng.chance(1, 3) { BIG } else { 0 } } else { rng.range(0, n - 1) };
                 cases.push(json!({"ev": "select", "a": a, "i": i.min(BIG), "pv": script, "fb": fb, "vmap": vmap, "strides": strides}));
             }
-            _ => {
+            kind => {
                 let m = rng.below(if tier == "thorough" { 33 } else { 9 });
                 let mut idx: Vec<i64> = (0..m).map(|_| if n == 0 { 0 } else { rng.range(0, n - 1) }).collect();
                 if (oor || n == 0) && !idx.is_empty() {
                     let pos = rng.below(idx.len() as u64) as usize;
                     idx[pos] = (n + rng.range(0, 2) + if rng.chance(1, 3) { BIG } else { 0 }).min(BIG);
                 }
-                cases.push(json!({"ev": "bulk", "a": a, "idx": idx, "pv": script, "fb": fb, "vmap": vmap, "strides": strides}));
+                cases.push(json!({"ev": if kind == "bulkpair" { "bulkpair" } else { "bulk" }, "a": a, "idx": idx, "pv": script, "fb": fb, "vmap": vmap, "strides": strides}));
             }
         }
     }
